@@ -35,6 +35,13 @@ fn judge<'a, T: DiffableStr + ?Sized + 'a>(d: &'a TextDiff<'a, 'a, 'a, T>, opt: 
         };
         let is_replace = matches!(op, DiffOp::Replace { .. });
         any_replace |= is_replace;
+        // asking again gives the same answer (no deadline involved: opt 0)
+        if opt == 0 && is_replace {
+            let again: Vec<_> = d.iter_inline_changes_deadline(op, None).collect();
+            if again != inline {
+                return Err(format!("{:?}: iter_inline_changes_deadline(op, None) called twice gives different results", op));
+            }
+        }
         if inline.len() != plain.len() {
             return Err(format!("{:?}: inline expansion has {} changes, plain expansion {}", op, inline.len(), plain.len()));
         }
